@@ -11,7 +11,7 @@ from propconf import CONF  # noqa: E402
 
 TEXT = {
     "C01": dict(technique="property-based testing (rapid): model-based oracle - independent reference backtracking matcher vs engine",
-                text="Generated-input search: F-core ASTs x option subsets x bounded-exhaustive and pattern-directed inputs x every start offset; FindRunesMatchStartingAt must equal the reference matcher (match, span, every capture list). Held on everything explored; not a proof.",
+                text="Generated-input search: F-core ASTs x option subsets x bounded-exhaustive and pattern-directed inputs x every start offset; FindRunesMatchStartingAt and FindStringMatchStartingAt must equal the reference matcher (match, span, every capture list). Held on everything explored; not a proof.",
                 note="Trusts the hand-written reference matcher (guarded by a hand-checked table replayed on every run) and Go's unicode tables. IgnoreCase letters restricted to plain pairs, as the property states.", ref="§6 C01"),
     "C15": dict(technique="property-based testing (rapid): reference matcher run right-to-left + mirror-image metamorphic relation",
                 text="Same machinery as C01 with RightToLeft: reference search descends from the start offset, consumes leftwards, evaluates concatenations last-to-first. Plus an oracle-independent leg: match_RTL(P,t) is the mirror of match_LTR(reverse(P),reverse(t)).",
